@@ -21,9 +21,9 @@ type pxSuite struct {
 	Configs    []*pxConfig
 	Inits      []*pxInit
 	Programs   func(tier string, emit func(p pxProg))
-	Violates   func(class string) bool               // which outcome classes violate this property
-	Nontrivial func(ref *refResult, p pxProg) bool   // rule for distinct_nontrivial
-	WantErrors bool                                  // keep programs whose reference reaches a defined error
+	Violates   func(class string) bool                                                              // which outcome classes violate this property
+	Nontrivial func(ref *refResult, p pxProg) bool                                                  // rule for distinct_nontrivial
+	WantErrors bool                                                                                 // keep programs whose reference reaches a defined error
 	OnOutcome  func(c *RunCtx, cfg *pxConfig, p pxProg, in *pxInit, ref *refResult, out *pxOutcome) // extra verdicts (may call c.Fail)
 	Rule       string
 	Deadline   func(tier string) time.Duration // 0 = none
